@@ -87,7 +87,9 @@ theorem core_replayGo (s : BSt) (l : List Stmt) : core (replayRing.go s l).1 = c
     unfold replayRing.go
     simp only
     split
-    · exact core_dispatch s x
+    · split
+      · rw [ih, core_emit]; exact core_dispatch s x
+      · exact core_dispatch s x
     · rw [ih]; exact core_dispatch s x
 
 theorem core_replayRing (s : BSt) (i : Nat) : core (replayRing s i).1 = core s := by
